@@ -109,6 +109,32 @@ func (c *connScope) BeginSpan() (network.ResourceScopeSpan, error) {
 	return &span{ResourceScopeSpan: s, r: c.r, site: "ConnMemory"}, nil
 }
 
+// PeerScope: the upgrader hands connScope.PeerScope() to the muxer, which opens its span there (yamux's memory
+// manager): that span is the "ConnSpan" site and its reservations the "ConnMemory" site.
+func (c *connScope) PeerScope() network.PeerScope {
+	ps := c.ConnManagementScope.PeerScope()
+	if ps == nil {
+		return nil
+	}
+	return &peerScope{PeerScope: ps, r: c.r}
+}
+
+type peerScope struct {
+	network.PeerScope
+	r *RefusingRcmgr
+}
+
+func (p *peerScope) BeginSpan() (network.ResourceScopeSpan, error) {
+	if err := p.r.refuse("ConnSpan"); err != nil {
+		return nil, err
+	}
+	s, err := p.PeerScope.BeginSpan()
+	if err != nil {
+		return nil, err
+	}
+	return &span{ResourceScopeSpan: s, r: p.r, site: "ConnMemory"}, nil
+}
+
 func (c *connScope) ReserveMemory(size int, prio uint8) error {
 	if err := c.r.refuse("ConnMemory"); err != nil {
 		return err
